@@ -29,7 +29,7 @@ func c01Build(tag string, leaves []T, nodes []c01Node, K int) ([]T, []c01Node) {
 	ns := append([]c01Node{}, nodes...)
 	for s := 0; s < K; s++ {
 		n := len(ts)
-		op := vrt.Concretize(vrt.Int(vrt.Nm(tag+"op", s), 0, 4))
+		op := vrt.Concretize(vrt.Int(vrt.Nm(tag+"op", s), 0, 5))
 		switch vrt.Param("ops") {
 		case 0:
 			vrt.Assume(op <= 3) // the ring {Scale, Add, Sub, Mul}
@@ -38,7 +38,7 @@ func c01Build(tag string, leaves []T, nodes []c01Node, K int) ([]T, []c01Node) {
 		}
 		a := vrt.Concretize(vrt.Int(vrt.Nm(tag+"a", s), 0, n-1))
 		b := a
-		if op != 0 {
+		if op != 0 && op != 5 {
 			b = vrt.Concretize(vrt.Int(vrt.Nm(tag+"b", s), 0, n-1))
 			if op == 1 || op == 3 {
 				vrt.Assume(a <= b) // commutative: one operand order is enough
@@ -48,6 +48,12 @@ func c01Build(tag string, leaves []T, nodes []c01Node, K int) ([]T, []c01Node) {
 		var y T
 		var err error
 		switch op {
+		case 5:
+			// identity-shaped explicit Broadcast: a distinct tensor with the same values (y = 1*x)
+			nd.op, nd.c = 0, 1
+			y, err = ts[a].Broadcast([]int{c01Width})
+			copy(nd.val, ns[a].val)
+			nd.tracked = ns[a].tracked
 		case 0:
 			nd.c = vrt.Float(vrt.Nm(tag+"c", s))
 			y = ts[a].Scale(nd.c)
@@ -79,7 +85,7 @@ func c01Build(tag string, leaves []T, nodes []c01Node, K int) ([]T, []c01Node) {
 			}
 			nd.val[0], nd.val[1] = ns[a].val[1], ns[b].val[0]
 		}
-		if op != 0 {
+		if op != 0 && op != 5 {
 			nd.tracked = vrt.Or(ns[a].tracked, ns[b].tracked)
 		}
 		vrt.Assert("forward op accepted", err == nil)
